@@ -13,8 +13,8 @@
      rw_stream r                the stream with every hint that begins with the letter A turned into R<r>-...
      legacy_rewrite             fed_collections.go rewriteSignatures *)
 From Coq Require Import NArith List Ascii String Bool Permutation.
-From AV Require Import lib.Str lib.Md5 lib.TokSplit lib.ManifestTok model.C18_model
-  proofs.C18_scan proofs.C18_get proofs.C18_legacy.
+From AV Require Import lib.Str lib.Md5 lib.TokSplit lib.ManifestTok model.C18_model model.C18_run
+  proofs.C18_scan proofs.C18_get proofs.C18_legacy proofs.C18_spec.
 Import ListNotations.
 Local Open Scope string_scope.
 
@@ -128,3 +128,20 @@ Theorem C18_hypotheses_satisfiable :
     ". 930625b054ce894ac40596c3f5a0d947+33+Rzzzzz-1f27a35dd9af37191d63ad8eb8985624451e7b79@5835c8bc 0:0:a 0:0:b 0:33:output.txt" ++ String nl "".
 Proof. exact hypotheses_satisfiable. Qed.
 Print Assumptions C18_hypotheses_satisfiable.
+
+(* the boolean specification with which the evaluator (model/C18_run.v: spec_get, spec_uuid, remote_ok) judges
+   what the implementation returned is satisfied by the model for every request, every set of answers and
+   every arrival order: a success is explained by a verifying answer relayed correctly; a failure means the
+   local answer does not verify and, when the federation is searched, no remote verifies and the class is
+   404 iff all remotes said 404, else 502 *)
+Theorem C18_model_meets_spec : forall req fwd local arrivals,
+  spec_get fwd (judge req local) (map (fun ra => (fst ra, judge req (snd ra))) arrivals)
+           (collection_get_pdh req fwd local arrivals) = true.
+Proof. exact model_meets_spec. Qed.
+Print Assumptions C18_model_meets_spec.
+Theorem C18_model_meets_spec_uuid : forall lid uuid a, spec_uuid lid uuid a (collection_get_uuid lid uuid a) = true.
+Proof. exact model_meets_spec_uuid. Qed.
+Print Assumptions C18_model_meets_spec_uuid.
+Theorem C18_model_meets_spec_rw : forall m r, remote_ok r m (rewrite_manifest m r) = true.
+Proof. exact model_meets_spec_rw. Qed.
+Print Assumptions C18_model_meets_spec_rw.
